@@ -5,10 +5,14 @@ namespace DS.Bloom
 variable {ι : Type} [DecidableEq ι] (P : Params) (hf : ι → Nat → Option (Nat × Nat))
 
 omit [DecidableEq ι] in
-theorem hdrCfg_of_parse {P : Params} {b : Block} {cap nh seed nbs nl : Nat} (h : parseImage P b = .full cap nh seed nbs nl) :
-    hdrCfg b.val = ⟨cap, nh, seed⟩ := by
+theorem hdrCfg_of_parse {P : Params} {b : Block} {cap nh seed nbs nl : Nat} (h : parseImage P b = .full cap nh seed nbs nl)
+    (hlt : cap < 2 ^ 32) : hdrCfg b.val = ⟨cap, nh, seed⟩ := by
   obtain ⟨_, h1, _, h2, h3, h4, _, _⟩ := parseImage_full h
-  simp only [hdrCfg, ← h4, ← h1, ← h2, ← h3]
+  have hc : (nl * 64) % 2 ^ 32 = cap := by
+    rw [h1] at hlt ⊢
+    unfold capOf at hlt ⊢
+    split at hlt <;> simp_all <;> omega
+  simp only [hdrCfg, ← h4, hc, ← h2, ← h3]
 
 omit [DecidableEq ι] in
 /-- the items recorded for the source's bit state are covered by the source's bits, under the source's configuration -/
@@ -36,8 +40,8 @@ theorem source_covers (hP : P.Wire) (w : World) (p : PGhost ι) (hg : Good P hf 
       obtain ⟨b, hb⟩ := hg.memref u g' m hu hr
       have hbv : w.blockVal m = b.val := by simp [World.blockVal, hb]
       rcases hg.blk m b hb ht' with ⟨_, _, _, _, hS⟩ | ⟨cap, nh, seed, nbs, nl, hfull, _, _, hcov, hhs⟩
-      · rw [hS]; exact ⟨Covers.nil _ _ _ _, fun y hy => by cases hy⟩
-      · have hcfg := hdrCfg_of_parse hfull
+      · rw [hS.1]; exact ⟨Covers.nil _ _ _ _, fun y hy => by cases hy⟩
+      · have hcfg := hdrCfg_of_parse hfull ‹1 ≤ nh ∧ cap < 2 ^ 32›.2
         have hag' : hdrCfg (w.blockVal m) = g'.cfg := by
           simp only [agrees, hr, decide_eq_true_eq] at hag; exact hag
         rw [hbv, hcfg] at hag'
